@@ -7,6 +7,7 @@ import (
 	"time"
 
 	"github.com/filecoin-project/go-f3/gpbft"
+	"github.com/filecoin-project/go-f3/pmsg"
 	"github.com/filecoin-project/go-f3/zz_verif/kernel"
 )
 
@@ -123,6 +124,11 @@ type delivery struct {
 	to   *Member
 	msg  *gpbft.GMessage
 	byz  bool
+	// two-stage path (as in the node: partial message first, chain via chain exchange later)
+	key       *gpbft.ECChainKey // announced key (nil = key of msg's own value)
+	chain     *gpbft.ECChain    // completing chain (nil = msg's own value)
+	pv        gpbft.PartiallyValidatedMessage
+	completed bool
 }
 
 func (w *World) schedDeliver(at time.Duration, from int, to *Member, msg *gpbft.GMessage) {
@@ -138,6 +144,10 @@ func (w *World) schedDeliver(at time.Duration, from int, to *Member, msg *gpbft.
 func (w *World) deliver(dl *delivery) {
 	to := dl.to
 	if to.Role != Honest || to.part == nil {
+		return
+	}
+	if w.cfg.PartialPath && !dl.completed {
+		w.deliverPartial(dl)
 		return
 	}
 	if to.heldUntil > w.now() {
@@ -300,3 +310,109 @@ func lessInstant(a, b gpbft.Instant) bool {
 }
 
 var _ = kernel.Mix
+
+// deliverPartial is the node's two-stage path: the stripped message is validated on arrival with
+// the announced key only; it is completed, fully validated and handed to the participant when
+// the announced chain becomes known to the receiver (chain exchange), which may be much later.
+func (w *World) deliverPartial(dl *delivery) {
+	to := dl.to
+	if to.heldUntil > w.now() {
+		w.r.Fault("held_delivery")
+		at := to.heldUntil + w.c.Dur(0, w.cfg.Jitter)
+		ev := w.s.At(at, func() { w.deliver(dl) })
+		ev.Tag, ev.Actor = tagDeliver, to.Idx
+		return
+	}
+	if dl.pv == nil {
+		// ---- stage 1: arrival of the partial message
+		src := cloneMsg(dl.msg)
+		if src == nil {
+			return
+		}
+		p, err := w.pmm.ToPartialGMessage(src)
+		if err != nil {
+			return
+		}
+		if dl.key != nil {
+			p.VoteValueKey = *dl.key
+		}
+		pv, err := to.part.PartiallyValidateMessage(w.ctx, p)
+		if err != nil {
+			cls := errClass(err)
+			w.r.Probe("partial_validation_" + cls)
+			w.r.Tracef("t=%d pdrop to=%d %s class=%s", w.now(), to.ID, msgStr(dl.msg), cls)
+			if !dl.byz && cls == "invalid" {
+				w.fail("C07", "emitted_rejected_by_peer", "invalid-partial:"+dl.msg.Vote.Phase.String(), "honest message branded invalid by peer %d on the partial path: %s: %v", to.ID, msgStr(dl.msg), err)
+			}
+			return
+		}
+		dl.pv = pv
+		w.r.Probe("partial_validated")
+		key := p.VoteValueKey
+		if key.IsZero() {
+			w.completePartial(dl)
+			return
+		}
+		// when does the receiver learn the announced chain?
+		if w.chainAvail == nil {
+			w.chainAvail = map[int]map[gpbft.ECChainKey]time.Duration{}
+		}
+		if w.chainAvail[to.Idx] == nil {
+			w.chainAvail[to.Idx] = map[gpbft.ECChainKey]time.Duration{}
+		}
+		avail, ok := w.chainAvail[to.Idx][key]
+		if !ok {
+			avail = w.now()
+			if w.c.Chance(200) {
+				avail += w.c.Dur(0, 8*w.cfg.Delta) // the chain broadcast is slow or withheld for a while
+				w.r.Fault("chain_withheld")
+			}
+			w.chainAvail[to.Idx][key] = avail
+		}
+		if avail <= w.now() {
+			w.completePartial(dl)
+			return
+		}
+		ev := w.s.At(avail, func() { w.completePartial(dl) })
+		ev.Tag, ev.Actor = tagDeliver, to.Idx
+		if dl.byz {
+			ev.Tag |= 0x100
+		}
+		return
+	}
+	w.completePartial(dl)
+}
+
+// completePartial is stage 2: the chain is known; complete, fully validate, receive.
+func (w *World) completePartial(dl *delivery) {
+	to := dl.to
+	if to.part == nil {
+		return
+	}
+	p := dl.pv.PartialMessage()
+	chain := dl.chain
+	if chain == nil {
+		chain = dl.msg.Vote.Value
+	}
+	if !p.VoteValueKey.IsZero() {
+		p.Vote.Value = &gpbft.ECChain{TipSets: append([]*gpbft.TipSet(nil), chain.TipSets...)}
+		pmsg.VerifInferJustificationVoteValue(p)
+	}
+	before := to.part.Progress()
+	vm, err := to.part.FullyValidateMessage(w.ctx, dl.pv)
+	if err != nil {
+		cls := errClass(err)
+		w.r.Probe("full_validation_" + cls)
+		w.r.Tracef("t=%d fdrop to=%d %s class=%s", w.now(), to.ID, msgStr(dl.msg), cls)
+		if !dl.byz && cls == "invalid" {
+			w.fail("C07", "emitted_rejected_by_peer", "invalid-full:"+dl.msg.Vote.Phase.String(), "honest message branded invalid by peer %d when completed: %s: %v", to.ID, msgStr(dl.msg), err)
+		}
+		return
+	}
+	msg := vm.Message()
+	w.r.Tracef("t=%d recv2 to=%d %s", w.now(), to.ID, msgStr(msg))
+	to.disc.beforeDeliver(msg)
+	err = to.part.ReceiveMessage(w.ctx, vm)
+	to.disc.onAPIReturn()
+	w.afterAPI(to, before, "ReceiveMessage", msg, err)
+}
